@@ -18,6 +18,7 @@ import (
 	"github.com/safing/portbase/database/storage/fstree"
 	"github.com/safing/portbase/formats/dsd"
 	"github.com/safing/portbase/log"
+	"github.com/safing/portbase/updater"
 	"github.com/safing/portbase/utils"
 	"github.com/safing/portbase/utils/renameio"
 	"github.com/safing/portbase/verifsim/simfs"
@@ -44,10 +45,11 @@ type FSPlan struct {
 	Explicit bool   `json:"explicit_tmp,omitempty"` // caller-specified temp dir
 	Readers  int    `json:"readers"`
 	Mode     int    `json:"mode,omitempty"` // requested mode index
+	Net      []int  `json:"net,omitempty"`  // fetch: behaviour of the download transport per attempt (0 ok, 1 truncated body, 2 error mid-body, 3 status 500, 4 body longer than announced)
 }
 
 var sizes = []int{0, 1, 4096, 200000, 3 << 20}
-var prims = []string{"writefile", "tempfile", "symlink", "createatomic", "copyatomic", "replaceatomic", "fstreeput"}
+var prims = []string{"writefile", "tempfile", "symlink", "createatomic", "copyatomic", "replaceatomic", "fstreeput", "fetch", "fetch", "unpackgz", "unpackzip"}
 
 func (H) Generate(prop string, rng *rand.Rand, tier string) any {
 	if prop == "C18" {
@@ -59,6 +61,18 @@ func (H) Generate(prop string, rng *rand.Rand, tier string) any {
 		maxSize = 4
 	}
 	p.OldSize, p.NewSize = rng.IntN(maxSize), rng.IntN(maxSize)
+	if p.Prim == "fetch" {
+		n := 1 + rng.IntN(3)
+		for i := 0; i < n; i++ {
+			p.Net = append(p.Net, rng.IntN(5))
+		}
+		if rng.IntN(2) == 0 {
+			p.Net = append(p.Net, 0)
+		}
+	}
+	if p.Prim == "unpackzip" {
+		p.Dest = 0
+	}
 	if tier == "thorough" && rng.IntN(6) == 0 {
 		p.NewSize = 4
 	}
@@ -122,6 +136,17 @@ type fsEnv struct {
 	base, root, tmp, exp, dest, src string
 }
 
+func newEnvFor(prim string) *fsEnv {
+	e := newEnv()
+	switch prim {
+	case "fetch", "unpackgz":
+		e.dest = filepath.Join(e.root, "res_v1-0-0.bin")
+	case "unpackzip":
+		e.dest = filepath.Join(e.root, "pkg_v1-0-0")
+	}
+	return e
+}
+
 func newEnv() *fsEnv {
 	runN++
 	base, _ := filepath.Abs(fmt.Sprintf("fssim-%d/r%d", os.Getpid(), runN))
@@ -148,6 +173,15 @@ type fsState struct {
 
 // runPrimitive executes the primitive once under the given fault plan and returns its error and whether it crashed.
 func runPrimitive(p *FSPlan, e *fsEnv, newData []byte, fp simfs.Plan) (err error, crashed bool, calls []simfs.Call, nmut int) {
+	var reg *updater.ResourceRegistry
+	var res *updater.Resource
+	switch p.Prim {
+	case "fetch", "unpackgz", "unpackzip":
+		reg, res, err = prepareRegistry(p, e, newData)
+		if err != nil {
+			return err, false, nil, 0
+		}
+	}
 	simfs.Begin(fp, e.tmp)
 	func() {
 		defer func() {
@@ -187,6 +221,16 @@ func runPrimitive(p *FSPlan, e *fsEnv, newData []byte, fp simfs.Plan) (err error
 			err = utils.CopyFileAtomic(e.dest, e.src, &utils.AtomicFileOptions{Mode: mode, TempDir: tmpDir})
 		case "replaceatomic":
 			err = utils.ReplaceFileAtomic(e.dest, e.src, &utils.AtomicFileOptions{Mode: mode, TempDir: tmpDir})
+		case "fetch":
+			_, err = reg.GetFile("res.bin")
+		case "unpackgz":
+			var f *updater.File
+			f, err = reg.GetFile("res.bin.gz")
+			if err == nil {
+				_, err = f.Unpack(".gz", updater.UnpackGZIP)
+			}
+		case "unpackzip":
+			err = res.UnpackArchive()
 		case "fstreeput":
 			var st interface {
 				Put(record.Record) (record.Record, error)
@@ -217,7 +261,7 @@ func (H) Execute(prop string, plan any, rc *simkit.RunCtx) {
 	newData := content('N', sizes[p.NewSize])
 	// expected stored form of the new content (fstree stores a record envelope)
 	setup := func() *fsEnv {
-		e := newEnv()
+		e := newEnvFor(p.Prim)
 		_ = os.WriteFile(e.src, newData, 0o640)
 		switch p.Dest {
 		case 1:
@@ -248,7 +292,7 @@ func (H) Execute(prop string, plan any, rc *simkit.RunCtx) {
 		oldState, _ = readState(p, e2)
 		e2.cleanup()
 	}
-	if p.Prim != "symlink" && !checkFsyncBeforeRename(calls, e.dest, rc, p) {
+	if p.Prim != "symlink" && p.Prim != "unpackzip" && !(p.Prim == "unpackgz" && p.Dest != 0) && !checkFsyncBeforeRename(calls, e.dest, rc, p) {
 		e.cleanup()
 		return
 	}
@@ -372,6 +416,26 @@ func readState(p *FSPlan, e *fsEnv) (string, bool) {
 		}
 		return "link:" + t, true
 	}
+	if p.Prim == "unpackzip" {
+		if fi, err := os.Stat(e.dest); err != nil || !fi.IsDir() {
+			return "", false
+		}
+		var sb strings.Builder
+		_ = filepath.Walk(e.dest, func(path string, info os.FileInfo, err error) error {
+			if err != nil {
+				return nil
+			}
+			rel, _ := filepath.Rel(e.dest, path)
+			if info.IsDir() {
+				fmt.Fprintf(&sb, "%s/;", rel)
+				return nil
+			}
+			b, _ := os.ReadFile(path)
+			fmt.Fprintf(&sb, "%s=%d:%x;", rel, len(b), simpleHash(b))
+			return nil
+		})
+		return sb.String(), true
+	}
 	b, err := os.ReadFile(e.dest)
 	if err != nil {
 		return "", false
@@ -430,6 +494,8 @@ func strayFiles(p *FSPlan, e *fsEnv) string {
 		rel, _ := filepath.Rel(e.base, path)
 		switch {
 		case path == e.dest, rel == "outside/sentinel", rel == "outside/source.bin":
+		case strings.HasPrefix(path, e.dest+"/"):
+		case strings.HasPrefix(rel, "root/tmp/"), rel == "root/res_v1-0-0.bin.gz", rel == "root/pkg_v1-0-0.zip":
 		case strings.HasPrefix(path, e.tmp+"/"), strings.HasPrefix(path, e.exp+"/"):
 		case filepath.Dir(path) == filepath.Dir(e.dest) && strings.HasPrefix(filepath.Base(path), "."):
 		case strings.HasPrefix(filepath.Base(filepath.Dir(path)), ".") && filepath.Dir(filepath.Dir(path)) == filepath.Dir(e.dest):
